@@ -22,7 +22,8 @@ def main():
     wt = Path(f"/tmp/seed/verify_{pid}_{m}")
     sh(f"git -C /repo worktree remove --force {wt}")
     rc, out = sh(f"git -C /repo worktree add -f {wt} HEAD")
-    meta = {"property": pid, "id": f"{pid}-{m}", "note": note.read_text() if note.exists() else ""}
+    base = sh("git -C /repo rev-parse --short HEAD")[1].strip()
+    meta = {"property": pid, "id": f"{pid}-{m}", "applies_to_commit": base, "note": note.read_text() if note.exists() else ""}
     try:
         env = dict(os.environ, PYTHONPATH=str(wt), PYTHONDONTWRITEBYTECODE="1")
         rc0, o0 = sh(f"/venv/bin/python {demo}", cwd=str(wt), env=env)
